@@ -20,12 +20,21 @@ def gen_intervals(rng, n=None, scale=None):
     """Sorted, non-overlapping half-open intervals incl. touching intervals, zero-length
     intervals/gaps, tiny and huge gaps.  Returned as list of (a, b) floats."""
     if n is None:
-        n = rng.choice([1, 1, 2, 2, 3, 3, 4, 5, 8, 13, 21, 40])
+        n = rng.choice([1, 1, 2, 2, 3, 3, 4, 5, 40]) if rng.random() < 0.5 else rng.randint(1, 40)
     if scale is None:
         scale = rng.choice([1.0, 1.0, 55000.0, 1e-3, 1e6])
-    mode = rng.choice(['grid', 'grid', 'float'])
+    mode = rng.choice(['grid', 'grid', 'float', 'mjd'])
     t = scale * rng.choice([0.0, 1.0, -3.0, 7.25])
     ivs = []
+    if mode == 'mjd':
+        # realistic good-run list: MJD offset 5.4e4..6e4, run lengths 1e-3..1 d, gaps 0..1e-2 d
+        t = rng.uniform(5.4e4, 6.0e4)
+        for _ in range(n):
+            a = t + rng.choice([0.0, rng.random() * 1e-2, rng.random() * 1e-4])
+            b = a + rng.choice([rng.uniform(1e-3, 1.0), rng.uniform(1e-3, 0.35), 0.0 if rng.random() < 0.2 else 0.3])
+            ivs.append((a, b))
+            t = b
+        return ivs
     for _ in range(n):
         if mode == 'grid':
             gap = rng.choice([0, 0, 1, 1, 2, 5]) * 0.25 * max(scale, 1e-3)
@@ -110,6 +119,53 @@ def merged(pieces):
     return res
 
 
+def _window_classes(ivs, t0, t1):
+    """the window classes named in the property's quantifier (for the evidence)"""
+    out = []
+    first, last = ivs[0][0], ivs[-1][1]
+    if t0 == float('-inf'):
+        out.append('inf-lower')
+    if t1 == float('inf'):
+        out.append('inf-upper')
+    if any(a <= t0 and t1 <= b and a < b for a, b in ivs):
+        out.append('inside-one-interval')
+    if any(b <= t0 and t1 <= c and b < c for (_, b), (c, _) in zip(ivs, ivs[1:])):
+        out.append('entirely-in-a-gap')
+    if t1 <= first:
+        out.append('before-first')
+    if t0 >= last:
+        out.append('after-last')
+    if sum(1 for lo_, hi_ in ref_intersection(ivs, t0, t1)) >= 2:
+        out.append('spanning-gaps')
+    if any(t1 == a for a, _ in ivs):
+        out.append('ends-on-start-edge')
+    if any(t0 == b for _, b in ivs):
+        out.append('starts-on-stop-edge')
+    return out
+
+
+def _directed_windows(rng, ivs):
+    first, last = ivs[0][0], ivs[-1][1]
+    span = max(last - first, 1.0)
+    w = [(first - 2 * span, first - span), (first - span, first), (last, last + span), (last + span, last + 2 * span),
+         (float('-inf'), float('inf')), (float('-inf'), first), (last, float('inf'))]
+    pos = [(a, b) for a, b in ivs if b > a]
+    if pos:
+        a, b = rng.choice(pos)
+        w += [(a + (b - a) * 0.25, a + (b - a) * 0.75), (a, b), (a, a + (b - a) / 2)]
+    gaps = [(b, c) for (_, b), (c, _) in zip(ivs, ivs[1:]) if c > b]
+    if gaps:
+        b, c = rng.choice(gaps)
+        w += [(b + (c - b) * 0.25, b + (c - b) * 0.75), (b, c)]
+    if len(pos) >= 2:
+        w.append((pos[0][0] + (pos[0][1] - pos[0][0]) / 2, pos[-1][0] + (pos[-1][1] - pos[-1][0]) / 2))
+    for k in range(1, len(ivs)):
+        if rng.random() < 0.3:
+            w.append((first - span, ivs[k][0]))       # ends exactly on a start edge
+            w.append((ivs[k - 1][1], last + span))     # starts exactly on a stop edge
+    return [(float(a), float(b)) for a, b in w if a < b]
+
+
 def mk(ivs):
     from skyllh.core.livetime import Livetime
     return Livetime(np.array(ivs, dtype=np.float64).reshape((-1, 2)))
@@ -147,9 +203,21 @@ def o_between(ctx, case):
     if got != want:
         return 'get_uptime_intervals_between(%r, %r) on %r = %r, but on-time ∩ window = %r' % (
             t0, t1, ivs, res.tolist(), [(float(a), float(b)) for a, b in want])
-    for a, b in res.tolist():
+    rows = res.tolist()
+    for a, b in rows:
         if a > b:
             return 'returned interval (%r, %r) is reversed' % (a, b)
+    # array level: rows sorted and non-overlapping; a degenerate row only where the input has a zero-length interval
+    flat_ = [x for r in rows for x in r]
+    if any(x > y for x, y in zip(flat_, flat_[1:])):
+        return 'get_uptime_intervals_between(%r, %r) on %r = %r is not a sorted, non-overlapping interval array' % (t0, t1, ivs, rows)
+    zero_in = set(a for a, b in ivs if a == b)
+    for a, b in rows:
+        if a == b and a not in zero_in:
+            return ('get_uptime_intervals_between(%r, %r) on %r returns the zero-length row [%r, %r) although no up-time interval of '
+                    'zero length lies there (expected: %s)' % (t0, t1, ivs, a, b, 'an empty array' if not want else 'only the on-time pieces'))
+    if len(rows) != len(set(map(tuple, rows))) and len(set(map(tuple, ivs))) == len(ivs):
+        return 'get_uptime_intervals_between(%r, %r) on %r = %r lists a row twice' % (t0, t1, ivs, rows)
     return None
 
 
@@ -168,16 +236,30 @@ def o_upto(ctx, case):
             return 'get_livetime_upto(%r) on %r = %r, on-time before t = %r' % (t, ivs, float(got), float(want))
         if float(got_arr[0]) != float(got):
             return 'array and scalar form of get_livetime_upto(%r) differ' % t
+    # one heterogeneous array call must equal the scalar calls element-wise (list, tuple and ndarray input)
+    try:
+        scal = [float(lt.get_livetime_upto(t)) for t in ts]
+        for form in (np.array(ts, dtype=np.float64), list(ts), tuple(ts)):
+            arr = np.asarray(lt.get_livetime_upto(form), dtype=np.float64)
+            if arr.shape != (len(ts),) or [float(x) for x in arr] != scal:
+                return 'get_livetime_upto(%s of %r) = %r differs from the scalar calls %r' % (type(form).__name__, ts, arr.tolist(), scal)
+    except Exception as e:  # noqa
+        return 'get_livetime_upto(array %r) on %r raised %s: %s' % (ts, ivs, type(e).__name__, e)
     return None
 
 
 class _StubRandom:
+    """hands out the prescribed uniform deviates for any of numpy's call forms of a U[0,1) draw"""
     def __init__(self, us):
         self.us = np.array(us, dtype=np.float64)
 
-    def uniform(self, lo, hi, size):
-        assert lo == 0 and hi == 1 and size == len(self.us)
+    def _u(self, *args, **kw):
         return self.us.copy()
+
+    def uniform(self, low=0.0, high=1.0, size=None):
+        return low + (high - low) * self.us.copy()
+
+    random_sample = random = rand = _u
 
 
 class _StubRSS:
@@ -197,8 +279,10 @@ def o_draw(ctx, case):
     lo = ivs[0][0] if t0 is None else t0
     hi = ivs[-1][1] if t1 is None else t1
     for u, x in zip(us, xs):
-        # closed upper edge tolerated: lower + y may round up to the edge in IEEE arithmetic
-        ok = any(a <= x <= b and b > a for a, b in ivs) and lo <= x <= hi
+        # the closed upper edge is tolerated only as an IEEE rounding of a value within 1 ulp of it
+        def near(x, b):
+            return x == b and abs(np.nextafter(b, -np.inf) - b) >= 0
+        ok = any((a <= x < b) or (b > a and near(x, b)) for a, b in ivs) and lo <= x <= hi
         if not ok:
             return 'draw_ontimes: u=%r gives t=%r which is not on-time inside the window (%r,%r) of %r' % (u, x, t0, t1, ivs)
     return None
@@ -273,6 +357,14 @@ def o_history(ctx, case):
     for k, ivs in enumerate(sets):
         if k > 0:
             lt.uptime_mjd_intervals_arr = np.array(ivs, dtype=np.float64).reshape((-1, 2))
+            # a rejected assignment (unsorted edges) must raise and keep the intervals just assigned
+            if len(ivs) >= 1 and ivs[0][0] < ivs[-1][1]:
+                bad = np.array(ivs, dtype=np.float64).reshape((-1, 2))[::-1, ::-1].copy()
+                try:
+                    lt.uptime_mjd_intervals_arr = bad
+                    return 'the setter accepted the unsorted interval array %r' % bad.tolist()
+                except ValueError:
+                    pass
         for rep in range(2):
             used = _answers(lt, ts, wins, us)
             fresh = _answers(mk(ivs), ts, wins, us)
@@ -329,7 +421,7 @@ def o_alias(ctx, case):
 def _impl_between(ivs, t0, t1):
     try:
         return flist(np.asarray(mk(ivs).get_uptime_intervals_between(t0, t1)).ravel())
-    except IndexError:
+    except Exception:  # noqa  -- every exception is the one error token of the model
         return 'ERR'
 
 
@@ -353,20 +445,45 @@ def _corr_lines(case):
         try:
             v = f2b(mk(ivs).get_livetime_upto(case['t']))
         except Exception as e:  # noqa
-            v = 'EXC:' + type(e).__name__
+            v = 'ERR'
         return 'upto %s %s' % (es, f2b(case['t'])), v
     if k == 'draw':
         try:
             v = f2b(mk(ivs).draw_ontimes(_StubRSS([case['u']]), 1)[0])
         except Exception as e:  # noqa
-            v = 'EXC:' + type(e).__name__
+            v = 'ERR'
         return 'draw %s %s' % (es, f2b(case['u'])), v
     if k == 'drawwin':
         try:
             v = f2b(mk(ivs).draw_ontimes(_StubRSS([case['u']]), 1, t_min=case['a0'], t_max=case['a1'])[0])
         except Exception as e:  # noqa
-            v = 'EXC:' + type(e).__name__
-        return 'drawwin %s %s %s %s' % (es, f2b(case['t0']), f2b(case['t1']), f2b(case['u'])), v
+            v = 'ERR'
+        opt = lambda x: 'N' if x is None else f2b(x)  # noqa
+        return 'drawwin %s %s %s %s' % (es, opt(case['a0']), opt(case['a1']), f2b(case['u'])), v
+    if k == 'subset':
+        from skyllh.core.dataset import DatasetData, get_data_subset
+        from skyllh.core.storage import DataFieldRecordArray
+        times = case['times']
+        try:
+            lt = mk(ivs)
+            exp = DataFieldRecordArray({'time': np.array(times, dtype=np.float64), 'tag': np.arange(len(times))}, copy=True)
+            data = DatasetData(data_exp=exp, data_mc=exp.copy(), livetime=lt.livetime)
+            (sub, ltsub) = get_data_subset(data, lt, case['t0'], case['t1'])
+            kept = set(int(x) for x in sub.exp['tag'])
+            mask = ','.join('1' if i in kept else '0' for i in range(len(times))) or '-'
+            v = '%s %s %s' % (mask, flist(np.asarray(ltsub.uptime_mjd_intervals_arr).ravel()), f2b(ltsub.livetime))
+        except Exception as e:  # noqa
+            v = 'ERR'
+        return 'subset %s %s %s %s' % (es, flist(times), f2b(case['t0']), f2b(case['t1'])), v
+    if k == 'integ':
+        from skyllh.core.livetime import Livetime
+        edges = case['edges']
+        try:
+            Livetime(np.array(edges, dtype=np.float64).reshape((-1, 2)))
+            v = '1'
+        except ValueError:
+            v = '0'
+        return 'integ %s' % flist(edges), v
     raise ValueError(k)
 
 
@@ -376,9 +493,14 @@ def _corr_compare(case, impl, model):
         idx, spec = [x.split(':', 1)[1] for x in model.split(' ')]
         if impl != idx:
             return 'between: implementation %s, index model %s' % (impl, idx)
-        if idx != 'ERR' and idx != spec:
+        if idx != 'ERR' and not (case['t1'] <= case['t0']) and idx != spec:
             return 'between: index model %s differs from specification model %s' % (idx, spec)
         return None
+    if k == 'subset' and impl != model and impl != 'ERR' and model != 'ERR':
+        (mi, ri, li), (mm, rm, lm) = impl.split(' '), model.split(' ')
+        scale = sum(abs(x) for p in case['ivs'] for x in p) * 2.3e-16 * (len(case['ivs']) + 2) + 1e-300
+        if mi == mm and ri == rm and abs(b2f(li) - b2f(lm)) <= scale + 1e-9 * sum(abs(b - a) for a, b in case['ivs']):
+            return None     # np.sum is pairwise, the model sums sequentially
     if impl != model:
         if k in ('upto', 'draw', 'drawwin') and impl.isdigit() and model.isdigit():
             # computed floats: bit-exactness is diagnostic only; the verdict relation is a tolerance
@@ -396,7 +518,7 @@ ORACLES = {
 }
 
 # which property oracle looks at the same behaviour as a correspondence kind
-_ORACLE_OF_KIND = {'ison': 'is_on', 'between': 'between', 'upto': 'upto', 'draw': 'draw', 'drawwin': 'draw'}
+_ORACLE_OF_KIND = {'ison': 'is_on', 'between': 'between', 'upto': 'upto', 'draw': 'draw', 'drawwin': 'draw', 'subset': 'subset', 'integ': 'integrity'}
 
 
 def _oracle_case_for(case):
@@ -411,6 +533,10 @@ def _oracle_case_for(case):
         return {'ivs': case['ivs'], 'us': [case['u']]}
     if k == 'drawwin':
         return {'ivs': case['ivs'], 'us': [case['u']], 't0': case['a0'], 't1': case['a1']}
+    if k == 'subset':
+        return {'ivs': case['ivs'], 'times': case['times'], 't0': case['t0'], 't1': case['t1']}
+    if k == 'integ':
+        return {'edges': case['edges']}
 
 
 def run(ctx):
@@ -449,6 +575,24 @@ def run(ctx):
             oracle_cases.append(('between', {'ivs': ivs, 't0': t0, 't1': t1}))
             cls = 'window:' + ('empty' if not ref_intersection(ivs, t0, t1) else 'nonempty')
             ctx.count(cls)
+            for c_ in _window_classes(ivs, t0, t1):
+                ctx.count('window-class:' + c_)
+        # directed windows: one of each class named in the quantifier (where the interval set allows it)
+        for (t0, t1) in _directed_windows(rng, ivs):
+            cases.append({'kind': 'between', 'ivs': ivs, 't0': t0, 't1': t1})
+            oracle_cases.append(('between', {'ivs': ivs, 't0': t0, 't1': t1}))
+            for c_ in _window_classes(ivs, t0, t1):
+                ctx.count('window-class:' + c_)
+        # reversed / empty windows (t1 <= t0): the model says empty array; compared, no oracle beyond emptiness
+        for _ in range(2):
+            i = rng.randrange(len(sts))
+            j = rng.randrange(0, i + 1)
+            cases.append({'kind': 'between', 'ivs': ivs, 't0': sts[i], 't1': sts[j]})
+            ctx.count('window-class:reversed-or-empty')
+        # +-inf as query time
+        for t in (float('inf'), float('-inf')):
+            cases.append({'kind': 'ison', 'ivs': ivs, 't': t})
+            cases.append({'kind': 'upto', 'ivs': ivs, 't': t})
         if sum(b - a for a, b in ivs) > 0:
             us = [0.0, np.nextafter(1.0, 0.0), 0.5] + [rng.random() for _ in range(5)]
             oracle_cases.append(('draw', {'ivs': ivs, 'us': us}))
@@ -478,16 +622,27 @@ def run(ctx):
                     ctx.count('draw:window' + (':zero-bound' if (t0 == 0.0 and t0 is not None) or (t1 == 0.0 and t1 is not None) else ''))
                     cases.append({'kind': 'drawwin', 'ivs': ivs, 'u': float(rng.choice(us)), 't0': lo_, 't1': hi_,
                                   'a0': t0, 'a1': t1})
+                    ctx.count('draw:bounds=' + ('both' if t0 is not None and t1 is not None else 'one-None'))
         times = [rng.choice(ts) for _ in range(rng.randrange(0, 12))]
         i = rng.randrange(len(sts))
         j = rng.randrange(i, len(sts))
         if ref_intersection(ivs, sts[i], sts[j]) or rng.random() < 0.5:
             oracle_cases.append(('subset', {'ivs': ivs, 'times': times, 't0': sts[i], 't1': sts[j]}))
+        cases.append({'kind': 'subset', 'ivs': ivs, 'times': times, 't0': sts[i], 't1': sts[j]})
+        # error paths: windowed draws without on-time (both sides must fail), draws on zero live time
+        empties = [(a_, b_) for a_, b_ in _directed_windows(rng, ivs) if not ref_intersection(ivs, a_, b_)]
+        for (a_, b_) in empties[:2]:
+            cases.append({'kind': 'drawwin', 'ivs': ivs, 'u': 0.5, 't0': a_, 't1': b_, 'a0': a_, 'a1': b_})
+            ctx.count('draw:window-without-on-time')
+        if sum(b - a for a, b in ivs) == 0:
+            cases.append({'kind': 'draw', 'ivs': ivs, 'u': 0.5})
+            ctx.count('draw:zero-live-time')
         edges = [x for p in ivs for x in p]
         if rng.random() < 0.5 and len(edges) >= 2:
             k = rng.randrange(len(edges) - 1)
             edges[k], edges[k + 1] = edges[k + 1], edges[k]
         oracle_cases.append(('integrity', {'edges': edges}))
+        cases.append({'kind': 'integ', 'ivs': ivs, 'edges': edges})
         # histories on one object (public setter between query rounds) and aliasing of handed-out arrays
         if rng.random() < ctx.n(0.5, 0.5):
             sets = [ivs] + [gen_intervals(rng, n=rng.choice([1, 2, 3, len(ivs)])) for _ in range(rng.choice([1, 2]))]
@@ -556,13 +711,18 @@ def _classify(name, case, res):
 MANIFEST = dict(
     text=('Lean theorems over any linear order / ordered field, all by induction over the interval list: is_on <-> membership in a '
           'half-open interval (touching and zero-length intervals included); the index arithmetic of get_uptime_intervals_between as '
-          'coded (digitize, parity adjustment, flat-array slice, early return) never raises and equals on-time ∩ window as a point set '
-          '(refinement to a filter/clip specification); the index computation of get_livetime_upto equals Σ(min stop t − min start t); '
-          'draw_ontimes (inverse CDF over the cumulative on-time) lands in on-time and, with a window, inside the window; event-subset '
-          'mask; integrity check. The executable model is compared bit-exactly with the real Livetime methods and get_data_subset on '
-          'every run; exact-fraction oracles search the implementation for failing inputs.'),
-    note=('IEEE rounding is outside the theorems (e.g. lower + y rounding up to the closed upper edge in draw_ontimes); '
-          'numpy.digitize/cumsum are re-implemented in the model and compared on every run; np.sum pairwise summation of the total '
-          'live time is compared with a 1e-9 relative tolerance.'),
-    design='DESIGN.md section 4 C14',
-    technique='Lean 4 proof (induction over interval lists, refinement of index arithmetic to a specification) + bit-exact model/implementation correspondence')
+          'coded (early return for an empty window, digitize for the lower and digitize(right=True) for the excluded upper bound, parity '
+          'adjustment, flat-array slice) never raises and equals a filter/clip specification, hence on-time ∩ window as a point set, '
+          'returns the empty array when there is no on-time (intervals of positive length), no degenerate rows, and again a valid '
+          '(sorted) interval array; get_livetime_upto = Σ(min stop t − min start t); draw_ontimes with its None defaults lands in on-time '
+          'inside the effective window; get_data_subset composed (mask, intervals, live time = on-time inside the window); the setter '
+          'validates first, so after any history the object holds the last accepted sorted list and answers like a fresh object. The '
+          'executable model is compared (bit-exactly where it only passes values through) with Livetime.is_on / '
+          'get_uptime_intervals_between / get_livetime_upto / draw_ontimes / get_data_subset / the integrity check on every run, incl. '
+          'error paths; exact-fraction, fresh-vs-used (histories through the setter) and aliasing oracles search the implementation.'),
+    note=('IEEE rounding is outside the theorems (e.g. lower + y rounding up to the closed upper edge in draw_ontimes); NaN times and '
+          'subnormal times are outside the generated domain; numpy.digitize/cumsum are re-implemented in the model and compared on every '
+          'run; np.sum pairwise summation of the total live time is compared with a tolerance. Not modelled: I3Livetime.from_grl_*, '
+          'clip_grl_start_times, TimeGenerator pass-through (the latter is exercised by C08).'),
+    design='DESIGN.md section 4 C14, review.d/C14.md',
+    technique='Lean 4 proof (induction over interval lists, refinement of index arithmetic to a specification) + model/implementation correspondence')
